@@ -6,6 +6,10 @@ Streams
   layout  : generated (token sequences, layout) -> file -> `list(FortranReader)`;
             (a) correspondence: equal to the Lean `readAll` on the same lines,
             (b) property oracle: squeeze(items) == squeeze(token sequences), docs exact.
+  sweep   : bounded-exhaustive: every literal of <= 2 units over SWEEP_UNITS (incl. `\\`, `!`, `;`, `&`, the other
+            quote, a doubled quote), both quote kinds, followed on its line by nothing / a comment / an inline doc /
+            `;` + statement / `//` + literal + comment, written on one line and continued inside the literal;
+            same two checks as the layout stream.
   junk    : random lines over a small alphabet, model vs implementation incl. error kinds.
   program : generated modules with character literals wherever FORD keeps or interprets statement
             text (initial values, bind names, call arguments, conditions) ->
@@ -14,6 +18,9 @@ Streams
                 that of the one-statement-per-line layout; it equals the tree of the same program
                 with neutral literals once the literals are put back (literal contents are never
                 syntax); every initial value / bind name is the source text, literals verbatim.
+  program-sweep : bounded-exhaustive array constructors `[L1, ..., Ln]` (n <= 3) over c02prog.SWEEP_LITS
+            (placeholder look-alikes `"0"`, `"1"` ... in both quote kinds, `'"0"'`, `""`, `'a,b'`, `"\\"`) as
+            initial values, one statement per line: the program stream's checks.
 
 The statement oracle compares *lexical tokens* (c02prog.lex): blanks between tokens are free,
 a blank inside a token (a name, number or operator continued with `&` ... `&`) is a difference.
@@ -34,7 +41,10 @@ MARKS = ("!", ">", "*", "|")
 
 CODE = ["x", "=", "y1", "+", "call f", "(", ")", ",", "print *,", "1.0e0", "if (a) b", "end do", "//", "z%w", ":", "include_", "then",
         "big_number", "123456", "1.5e3", "**", "=>", "==", ".and.", "compute_totals", "total_count", "::", "integer", "/=", "subroutine"]
-LITBODY = ["a", " ", "!", ";", "&", "OTHER", "DOUBLED", "!!", "!>", "call g()", "", "  ", "'", "b c", ",", "x,y"]
+LITBODY = ["a", " ", "!", ";", "&", "OTHER", "DOUBLED", "!!", "!>", "call g()", "", "  ", "'", "b c", ",", "x,y",
+           # characters that other languages (or regex / template engines) treat specially inside a string but
+           # that are ordinary characters of a Fortran literal: a backslash is not an escape, ...
+           "\\", "\\", "\\\\", "C:\\", "\\n", "%", "#", "$", "{x}", "~", "`", "?", "@", "^", "<b>", "[", "0", "1"]
 
 
 def lit(q, pieces):
@@ -225,6 +235,45 @@ def render(rng, stmts, feat, docs=None, safe=False):
     return lines, expected
 
 
+SWEEP_UNITS = ["a", " ", "!", ";", "&", "OTHER", "DOUBLED", "\\", ",", "0", "%", "#", "$", "=", "(", "{", "~", "@", "?", "\t"]
+# (text after the literal on its line, following physical lines, tokens that continue the statement,
+#  second statement, doc line)
+SWEEP_TAILS = [("", [], [], None, None), (" ! c", [], [], None, None), (" !! d 'q", [], [], None, "!! d 'q"),
+               ("; y = 2", [], [], ["y", "=", "2"], None), (" // 'z' ! it's", [], ["//", "'z'"], None, None),
+               ("!c", [], [], None, None), ("!!d", [], [], None, "!!d"),
+               (" &", ["  // 'z' ! c"], ["//", "'z'"], None, None), (" & ! c", ["! c2", " &// 'z' !! d"], ["//", "'z'"], None, "!! d")]
+
+
+def sweep_cases(rng, maxunits, with_breaks):
+    """Bounded-exhaustive: every character literal of at most `maxunits` units over SWEEP_UNITS, both
+    quote kinds, as the last literal of the statement `x = <literal><tail>` for every tail (nothing,
+    ordinary comment, inline doc comment, `;` + second statement, `//` + literal + comment, the same
+    continued on a following line with comments); with `with_breaks` also the same statement with
+    the literal itself continued across two lines at a random position.
+    Yields (lines, expected, features)."""
+    for q in "'\"":
+        other = '"' if q == "'" else "'"
+        for n in range(maxunits + 1):
+            for units in itertools.product(SWEEP_UNITS, repeat=n):
+                us = [other if u == "OTHER" else q + q if u == "DOUBLED" else u for u in units]
+                litt = q + "".join(us) + q
+                for tail, extra, cont, more, doc in SWEEP_TAILS:
+                    exp = [("stmt", ["x", "=", litt] + cont)]
+                    if more:
+                        exp.append(("stmt", more))
+                    if doc:
+                        exp.append(("doc", doc))
+                    feat0 = {"sweep"} | ({"break"} if extra else set())
+                    yield ["x = " + litt + tail] + extra, exp, set(feat0)
+                    if with_breaks:
+                        pos = rng.randint(0, len(us))
+                        feat = feat0 | {"break-in-literal", "leading-amp"}
+                        if "!" in tail:
+                            feat.add("comment-on-lit-closing-line")
+                        yield (["x = " + q + "".join(us[:pos]) + "&", rng.choice(["", "  "]) + "&" + "".join(us[pos:]) + q + tail] + extra,
+                               exp, feat)
+
+
 def impl_read(ford, path: Path):
     """list(FortranReader(path)) with errors mapped to the model's enum."""
     from ford.reader import FortranReader
@@ -283,7 +332,7 @@ def micro_streams(ford, drv, rng, n, rep):
     import ford.utils as U
     import re
 
-    alpha = "a '\"!&;>|*x"
+    alpha = "a '\"!&;>|*x\\"
     reqs, exp = [], []
     for _ in range(n):
         s = "".join(rng.choice(alpha) for _ in range(rng.randint(0, 12)))
@@ -404,6 +453,7 @@ def run(tier: str, seed: int, replay: str | None = None) -> int:
     ev_micro, bad_micro = micro_streams(ford, drv, rng, n_micro, rep)
 
     feats_hist: dict[str, int] = {}
+    stream_hist: dict[str, int] = {}
     prog_hist = {"programs": 0, "statements": 0, "literals": 0, "literals_with_comma": 0, "initial_values": 0,
                  "bind_names": 0, "trees_compared": 0, "skipped_known_layout": 0}
     distinct = set()
@@ -419,23 +469,33 @@ def run(tier: str, seed: int, replay: str | None = None) -> int:
             stmts = [gen_stmt(rng, 5 if k % 7 else 9) for _ in range(nst)]
             feat: set[str] = set()
             lines, expected = render(rng, stmts, feat, safe=(k % 2 == 1))
-            cases.append((lines, expected, feat, None))
+            cases.append((lines, expected, feat, None, "layout"))
+        # ---------------- sweep stream: bounded-exhaustive literals x what follows them on the line
+        for lines, expected, feat in sweep_cases(rng, 2 if tier == "quick" else 3, with_breaks=True):
+            cases.append((lines, expected, feat, None, "sweep"))
         # ---------------- program stream: the same checks on a random layout of a whole module ...
         for k in range(n_prog):
             prog = PG.gen_program(rng, k)
             feat = set()
             lines, expected = render(rng, [st["atoms"] for st in prog.stmts], feat, docs=[st["docs"] for st in prog.stmts],
                                      safe=(k % 4 != 0))
-            cases.append((lines, expected, feat, prog))
-        reqs = [["read", *MARKS, *lines] for lines, _, _, _ in cases]
+            cases.append((lines, expected, feat, prog, "program"))
+        # ---------------- declaration sweep: bounded-exhaustive array constructors of literals, one statement per line
+        for prog in PG.sweep_programs(3 if tier == "quick" else 4):
+            cases.append((PG.canonical_lines(prog.stmts), [("stmt", [t for _, t in st["atoms"]]) for st in prog.stmts],
+                          {"sweep"}, prog, "program-sweep"))
+        # the bounded-exhaustive cases are the smallest: evaluate (and report) them first
+        prio = {"sweep": 0, "program-sweep": 1, "layout": 2, "program": 3}
+        cases.sort(key=lambda c: prio[c[4]])
+        reqs = [["read", *MARKS, *lines] for lines, _, _, _, _ in cases]
         model = drv.batch(reqs)
-        for k, ((lines, expected, feat, prog), mo) in enumerate(zip(cases, model)):
-            stream = "layout" if prog is None else "program"
+        for k, ((lines, expected, feat, prog, stream), mo) in enumerate(zip(cases, model)):
             p = d / f"c{k % 64}.f90"
             p.write_text("".join(l + "\n" for l in lines))
             im = impl_read(ford, p)
             for f in feat:
                 feats_hist[f] = feats_hist.get(f, 0) + 1
+            stream_hist[stream] = stream_hist.get(stream, 0) + 1
             key = common.digest(lines)
             if feat & {"break", "break-in-literal", "break-in-token", "semicolon", "inline-doc"}:
                 distinct.add(key)
@@ -474,7 +534,7 @@ def run(tier: str, seed: int, replay: str | None = None) -> int:
             prog_hist["trees_compared"] += 1
             for rel, twhy in tree_oracle(d, prog, lines_for_tree, decl_log):
                 n_oracle_fail += 1
-                rep.failing_input({"stream": "program", "relation": rel, "why": twhy,
+                rep.failing_input({"stream": stream, "relation": rel, "why": twhy,
                                    "canonical_lines": PG.canonical_lines(prog.stmts),
                                    "lines": lines_for_tree, "features": sorted(feat)},
                                   classify(feat, lines) if rel == "layout" else None)
@@ -495,7 +555,7 @@ def run(tier: str, seed: int, replay: str | None = None) -> int:
                                {"stream": "program/" + r[0], "statement": r[-1], "impl": e, "model": g})
         prog_hist["declarations_model_vs_impl"] = len(decl_log)
         # ---------------- junk stream (model vs implementation only)
-        alpha = ["a", " ", "'", '"', "!", "&", ";", ">", "|", "*", "#", "!!", "!>", "!*", "!|", "x = 1"]
+        alpha = ["a", " ", "'", '"', "!", "&", ";", ">", "|", "*", "#", "!!", "!>", "!*", "!|", "x = 1", "\\"]
         jcases = []
         for k in range(n_junk):
             jl = ["".join(rng.choice(alpha) for _ in range(rng.randint(0, 7))) for _ in range(rng.randint(1, 5))]
@@ -519,13 +579,16 @@ def run(tier: str, seed: int, replay: str | None = None) -> int:
         rule="layout cases are (lexical token sequences x random legal layout); non-trivial = has a continuation break "
              "(between tokens, inside a literal or inside a token), a ';' separator or an inline doc; distinct by digest "
              "of the physical lines; program cases are generated modules x random layout, parsed three times "
-             "(one statement per line, random layout, neutral literals)",
+             "(one statement per line, random layout, neutral literals); sweep cases are bounded-exhaustive: every literal of "
+             "<= 2 (thorough: 3) units over SWEEP_UNITS x both quote kinds x every SWEEP_TAILS tail (plain and continued inside the literal), "
+             "and every array constructor of <= 3 (thorough: 4) literals over c02prog.SWEEP_LITS as an initial value",
         samples=samples,
         traces_validated_against_impl=len(cases) + len(jcases) + ev_micro + 2 * len(decl_log),
         correspondence_disagreements=n_bad_corr + bad_micro,
         oracle_failures=n_oracle_fail,
         layout_feature_histogram=dict(sorted(feats_hist.items())),
         program_stream=prog_hist,
+        streams=stream_hist,
     )
     rep.assumptions += [
         "include expansion, preprocessor and text decoding are not modelled",
